@@ -1,7 +1,9 @@
 package props
 
 import (
+	"context"
 	"encoding/json"
+	"errors"
 	"fmt"
 	"net/url"
 	"path"
@@ -11,6 +13,7 @@ import (
 	"time"
 
 	"github.com/bmatcuk/doublestar/v4"
+	jose "github.com/go-jose/go-jose/v4"
 	"github.com/zitadel/oidc/v3/pkg/oidc"
 	"github.com/zitadel/oidc/v3/pkg/op"
 
@@ -36,6 +39,36 @@ type c18 struct {
 	b    *world.Browser
 	ids  []*grantedToken
 	tw   *tokenWorld
+	// key-set options of the provider (rarely used): xKey belongs to the access-token key set only, zKey to the
+	// hint key set only
+	atKeySet, hintKeySet *extraKeySet
+}
+
+// extraKeySet is what an operator passes to op.WithAccessTokenKeySet / op.WithIDTokenHintKeySet: the provider's own
+// published keys plus one key of another token service.
+type extraKeySet struct {
+	store *world.Store
+	extra jose.JSONWebKey
+}
+
+func (k *extraKeySet) VerifySignature(ctx context.Context, jws *jose.JSONWebSignature) ([]byte, error) {
+	if k.store == nil || len(jws.Signatures) != 1 {
+		return nil, errors.New("extraKeySet: not usable")
+	}
+	kid := jws.Signatures[0].Header.KeyID
+	if kid == k.extra.KeyID {
+		return jws.Verify(k.extra.Public())
+	}
+	keys, err := k.store.KeySet(ctx)
+	if err != nil {
+		return nil, err
+	}
+	for _, key := range keys {
+		if key.ID() == kid {
+			return jws.Verify(jose.JSONWebKey{Key: key.Key(), KeyID: key.ID(), Algorithm: string(key.Algorithm()), Use: key.Use()})
+		}
+	}
+	return nil, errors.New("extraKeySet: no key " + kid)
 }
 
 func postLogoutAllowed(c *world.Client, uri string) bool {
@@ -88,6 +121,15 @@ func (c *c18) mkHint(ch *kernel.Chooser) hintInfo {
 		h.token, h.kind, h.valid = parts[0]+"."+b64(`{"iss":"`+w.Issuer+`","sub":"u1","aud":["web"],"azp":"web","exp":9999999999,"iat":1}`)+"."+parts[2], "tampered", false
 	case 4:
 		h.token, h.kind, h.valid = "garbage", "garbage", false
+	case 5: // signed by the key that only the access-token key set knows: never a valid hint
+		x := world.FixtureKey(w.AlgPrefix, (w.KeyN+2)%4)
+		h.token, h.kind, h.valid = resign(func(map[string]any) {}, nil, x.Key, "x-1"), "access-token-keyset-key", false
+	case 6: // signed by the key that only the hint key set knows: valid exactly when that option is in force
+		z := world.FixtureKey(w.AlgPrefix, (w.KeyN+3)%4)
+		h.token, h.kind, h.valid = resign(func(map[string]any) {}, nil, z.Key, "z-1"), "hint-keyset-key", c.hintKeySet != nil
+		if h.valid {
+			c.o.Probe("hints-signed-by-the-hint-keyset-key")
+		}
 	}
 	if g.issuer != "" && g.issuer != w.Issuer {
 		// issued by another tenant of this provider: for the tenant addressed now it is a hint of a foreign issuer
@@ -266,10 +308,32 @@ func RunC18(t *testing.T, spec kernel.Spec) *kernel.Outcome {
 			}
 			opts = append(opts, op.WithIDTokenHintVerifierOpts(op.WithSupportedIDTokenHintSigningAlgorithms(all...), func(v *op.IDTokenHintVerifier) { v.MaxAgeIAT = maxAge }))
 		}
+		// rarely used options: a separate key set for access tokens (the provider's keys plus key x of another token
+		// service), and possibly one for hints (the provider's keys plus key z). Unset, hints are checked with the
+		// provider's own published keys - whatever the access-token key set is.
+		var atKS, hintKS *extraKeySet
+		if kc := tape.Sub("cfg-keysets"); kc.Bool(1, 2) {
+			atKS = &extraKeySet{}
+			opts = append(opts, op.WithAccessTokenKeySet(atKS))
+			if kc.Bool(1, 2) {
+				hintKS = &extraKeySet{}
+				opts = append(opts, op.WithIDTokenHintKeySet(hintKS))
+			}
+		}
 		w, err := world.NewStd(o, tape, world.StdOptions{Router: spec.Params["router"], ForceConfig: nil, Tenants: tenants, Options: opts})
 		if err != nil {
 			o.Infra = "world: " + err.Error()
 			return
+		}
+		if atKS != nil {
+			atKS.store, atKS.extra = w.Store, world.FixtureKey(w.AlgPrefix, (w.KeyN+2)%4)
+			atKS.extra.KeyID = "x-1"
+			o.Probe("separate-access-token-keyset")
+		}
+		if hintKS != nil {
+			hintKS.store, hintKS.extra = w.Store, world.FixtureKey(w.AlgPrefix, (w.KeyN+3)%4)
+			hintKS.extra.KeyID = "z-1"
+			o.Probe("separate-hint-keyset")
 		}
 		cfg := tape.Sub("cfg2")
 		for _, id := range w.SortedClients() {
@@ -287,7 +351,7 @@ func RunC18(t *testing.T, spec kernel.Spec) *kernel.Outcome {
 			}
 			cl.IDLifetime = time.Duration(cfg.Range(1, 20)) * time.Minute
 		}
-		c := &c18{w: w, o: o, b: w.Net.NewBrowser("b1")}
+		c := &c18{w: w, o: o, b: w.Net.NewBrowser("b1"), atKeySet: atKS, hintKeySet: hintKS}
 		c.tw = &tokenWorld{w: w, o: o, prop: "C18", b: c.b}
 		n := 40 + tape.Sub("cfg").Int(40)
 		steps(o, tape, n, func(i int, ch *kernel.Chooser) string {
